@@ -377,6 +377,17 @@ fn check_c01() {
     for s in ["", "<", "<1.1:1:2,1,1:3,3>", "<1.1:3:2 2,1 2 3,1 2 3:3,3>", "<1.1:1:0,1,1:3,3>", "<1.1:2 18446744073709551615:2,2,2:3,3>",
               "<1.1:99999999999:2,2,2:3,3>", "<1.1:2305843009213693952 1:1,1:1>", "<1.1:2:2,2,2:0 0,0 0>", "<1.1:2:1 2,3,2:3,3>", "<1.1:0:1:1>",
               "<1.1:1 0::>", "<1.1:2:2 1,1 2,1 2:3 3,3 3>", "<1.1:2:2,2,2:3,3 3>", "<1.1:1:1,1,1:2,3>", "<1.1:4:2 4,4 3,2 4:4,4>"] { inputs.push(s.to_string()); }
+    // round trip of symbols built through the API, including degrees beyond 32 bits
+    for ds in corpus().into_iter().filter(|d| d.is_complete()).take(60) {
+        for big in [1usize << 31, (1usize << 32) + 7, 1usize << 40] {
+            let mut b = ds.clone();
+            if quiet(|| b.set_v(0, 1, big)).is_err() { continue; }
+            let t = format!("{}", b);
+            match quiet(|| t.parse::<PartialDSym>()) { Ok(Ok(back)) => if back != b { falsified("Display/from_str round trip", format!("symbol printed as {:?}", t), "parses to a different symbol".into()); },
+                Ok(Err(e)) => falsified("Display/from_str round trip", format!("symbol printed as {:?}", t), format!("does not parse: {}", e.lines().next().unwrap_or(""))),
+                Err(e) => falsified("Display/from_str round trip", format!("symbol printed as {:?}", t), format!("panic {}", e)) }
+        }
+    }
     let mut rng = Rng(5);
     let base: Vec<String> = inputs.clone();
     for b in &base { for _ in 0..6 {   // single-character edits of valid text
